@@ -113,10 +113,10 @@ def Image__from_vector_inplace (contig : Bool) (self : Img) (vector : Vec) (copy
       .ok self0)
 
 def MaskedImage_masked_pixels (self : Img) : List Vec :=
-  if (allTrue (self).mask) then
+  if (allTrue (Np.HasMask.mask self)) then
     (self).chans
   else
-    (List.map (fun c => maskFilter c (self).mask) (self).chans)
+    (List.map (fun c => maskFilter c (Np.HasMask.mask (Np.HasMask.mask self))) (self).chans)
 
 def MaskedImage__as_vector (self : Img) (keepchannels : Bool) : Np.Arr :=
   if keepchannels then
@@ -126,26 +126,26 @@ def MaskedImage__as_vector (self : Img) (keepchannels : Bool) : Np.Arr :=
 
 def MaskedImage_from_vector (self : Img) (vector : Vec) (nchannels : Option Nat) : Except Err Img :=
   let nchannels0 := (Option.getD nchannels (Image_n_channels self))
-  if (allTrue (self).mask) then
+  if (allTrue (Np.HasMask.mask self)) then
     (match (Np.reshapeImg vector nchannels0 (Image_shape self)) with
     | .error err => .error err
     | .ok imagedata0 =>
-      let newimage0 := (Np.mkMasked imagedata0 (self).mask)
+      let newimage0 := (Np.mkMasked imagedata0 (Np.HasMask.mask self))
       .ok ((copy_landmarks_and_path self newimage0)))
   else
     let imagedata0 := (Np.zerosImg nchannels0 (Image_shape self))
     (match (Np.reshapeRows vector nchannels0) with
     | .error err => .error err
     | .ok pixelsperchannel0 =>
-      (match (Np.assignMasked imagedata0 (self).mask pixelsperchannel0) with
+      (match (Np.assignMasked imagedata0 (Np.HasMask.mask (Np.HasMask.mask self)) pixelsperchannel0) with
       | .error err => .error err
       | .ok p0 =>
         let imagedata1 := p0
-        let newimage0 := (Np.mkMasked imagedata1 (self).mask)
+        let newimage0 := (Np.mkMasked imagedata1 (Np.HasMask.mask self))
         .ok ((copy_landmarks_and_path self newimage0))))
 
 def MaskedImage__set_masked_pixels (contig : Bool) (self : Img) (pixels : List Vec) (copy : Bool) : Except Err Img :=
-  if (allTrue (self).mask) then
+  if (allTrue (Np.HasMask.mask self)) then
     (match (Np.reshapeImg pixels (Image_n_channels self) (Image_shape self)) with
     | .error err => .error err
     | .ok pixels0 =>
@@ -162,7 +162,7 @@ def MaskedImage__set_masked_pixels (contig : Bool) (self : Img) (pixels : List V
         let self0 := { self with shape := (pixels1).shape, chans := (pixels1).chans }
         .ok self0)
   else
-    (match (Except.map (fun d => { self with shape := d.shape, chans := d.chans }) (Np.assignMasked (Np.pixelsOf self) (self).mask pixels)) with
+    (match (Except.map (fun d => { self with shape := d.shape, chans := d.chans }) (Np.assignMasked (Np.pixelsOf self) (Np.HasMask.mask (Np.HasMask.mask self)) pixels)) with
     | .error err => .error err
     | .ok p0 =>
       let self0 := p0
@@ -229,8 +229,7 @@ def Affine_n_parameters (self : Xf) : Except Err Nat :=
   .ok (((Homogeneous_n_dims self) * ((Homogeneous_n_dims self) + (1))))
 
 def Affine__as_vector (self : Xf) : Except Err Vec :=
-  let params0 := ((self).h - (Np.eye ((Homogeneous_n_dims self) + (1))))
-  .ok ((Np.ravelF (Np.topRows (Homogeneous_n_dims self) params0)))
+  .ok ((Np.ravelF (Np.topRows (Homogeneous_n_dims self) ((self).h - (Np.eye ((Homogeneous_n_dims self) + (1)))))))
 
 def Affine__set_h_matrix (self : Xf) (value : Mat) (copy skipchecks : Bool) : Except Err Xf :=
   if (!skipchecks) then
@@ -310,13 +309,12 @@ def Similarity_n_parameters (self : Xf) : Except Err Nat :=
       .error .value
 
 def Similarity__as_vector (self : Xf) : Except Err Vec :=
-  let ndims0 := (Homogeneous_n_dims self)
-  if ((ndims0 == (2))) then
-    let params0 := ((self).h - (Np.eye (ndims0 + (1))))
-    let params1 := (Np.ravelF (Np.topRows ndims0 params0))
+  if (((Homogeneous_n_dims self) == (2))) then
+    let params0 := ((self).h - (Np.eye ((Homogeneous_n_dims self) + (1))))
+    let params1 := (Np.ravelF (Np.topRows (Homogeneous_n_dims self) params0))
     .ok ((Np.takeIdx params1 [(0), (1), (4), (5)]))
   else
-    if ((ndims0 == (3))) then
+    if (((Homogeneous_n_dims self) == (3))) then
       .error .notImpl
     else
       .error .value
@@ -360,7 +358,7 @@ def UniformScale_n_parameters (self : Xf) : Except Err Nat :=
   .ok ((1))
 
 def UniformScale__as_vector (self : Xf) : Except Err Vec :=
-  .ok ([UniformScale_scale self])
+  .ok ([(UniformScale_scale self)])
 
 def UniformScale__from_vector_inplace (self : Xf) (p : Vec) : Except Err Xf :=
   if (((Np.shape0 p) != (1))) then
@@ -392,16 +390,7 @@ def Rotation_n_parameters (self : Xf) : Except Err Nat :=
 
 def Rotation__as_vector (eig : Mat → Vec) (self : Xf) : Except Err Vec :=
   if (((Homogeneous_n_dims self) == (3))) then
-    let m000 := (Np.at2 (self).h (0) (0))
-    let m010 := (Np.at2 (self).h (0) (1))
-    let m020 := (Np.at2 (self).h (0) (2))
-    let m100 := (Np.at2 (self).h (1) (0))
-    let m110 := (Np.at2 (self).h (1) (1))
-    let m120 := (Np.at2 (self).h (1) (2))
-    let m200 := (Np.at2 (self).h (2) (0))
-    let m210 := (Np.at2 (self).h (2) (1))
-    let m220 := (Np.at2 (self).h (2) (2))
-    let K0 := [[((m000 - m110) - m220), (0 : Rat), (0 : Rat), (0 : Rat)], [(m010 + m100), ((m110 - m000) - m220), (0 : Rat), (0 : Rat)], [(m020 + m200), (m120 + m210), ((m220 - m000) - m110), (0 : Rat)], [(m210 - m120), (m020 - m200), (m100 - m010), ((m000 + m110) + m220)]]
+    let K0 := [[(((Np.at2 (self).h (0) (0)) - (Np.at2 (self).h (1) (1))) - (Np.at2 (self).h (2) (2))), (0 : Rat), (0 : Rat), (0 : Rat)], [((Np.at2 (self).h (0) (1)) + (Np.at2 (self).h (1) (0))), (((Np.at2 (self).h (1) (1)) - (Np.at2 (self).h (0) (0))) - (Np.at2 (self).h (2) (2))), (0 : Rat), (0 : Rat)], [((Np.at2 (self).h (0) (2)) + (Np.at2 (self).h (2) (0))), ((Np.at2 (self).h (1) (2)) + (Np.at2 (self).h (2) (1))), (((Np.at2 (self).h (2) (2)) - (Np.at2 (self).h (0) (0))) - (Np.at2 (self).h (1) (1))), (0 : Rat)], [((Np.at2 (self).h (2) (1)) - (Np.at2 (self).h (1) (2))), ((Np.at2 (self).h (0) (2)) - (Np.at2 (self).h (2) (0))), ((Np.at2 (self).h (1) (0)) - (Np.at2 (self).h (0) (1))), (((Np.at2 (self).h (0) (0)) + (Np.at2 (self).h (1) (1))) + (Np.at2 (self).h (2) (2)))]]
     let K1 := (Np.matDiv K0 (3 : Rat))
     (match (Np.eigh eig K1) with
     | .error err => .error err
@@ -420,11 +409,10 @@ def Rotation__as_vector (eig : Mat → Vec) (self : Xf) : Except Err Vec :=
 
 def Rotation_set_rotation_matrix (self : Xf) (value : Mat) (skipchecks : Bool) : Except Err Xf :=
   if (!skipchecks) then
-    let shape0 := (Np.shapeOf value)
-    if ((((Np.shape0 shape0) != (2))) && (((Np.at1 shape0 (0)) != (Np.at1 shape0 (1))))) then
+    if ((((Np.shape0 (Np.shapeOf value)) != (2))) && (((Np.shape0 value) != (Np.ncols value)))) then
       .error .value
     else
-      if (((Homogeneous_n_dims self) != (Np.at1 shape0 (0)))) then
+      if (((Homogeneous_n_dims self) != (Np.shape0 value))) then
         .error .value
       else
         let self0 := { self with h := setRotBase (self).h value }
